@@ -190,7 +190,8 @@ def call(s, name, I, args):
     if name in ('_ZNSt13runtime_errorC1EPKc', '_ZNSt13runtime_errorC2EPKc', '_ZNSt11logic_errorC1EPKc', '_ZNSt12length_errorC1EPKc', '_ZNSt12out_of_rangeC1EPKc'):
         return None
     if name == '__cxa_throw': raise PathEnd('raised', 'throw')
-    if name in ('__cxa_free_exception', '__cxa_begin_catch', '__cxa_end_catch'): return None
+    if name in ('__cxa_free_exception', '__cxa_begin_catch', '__cxa_end_catch', '__cxa_guard_release', '__cxa_guard_abort', '__cxa_atexit'): return None
+    if name == '__cxa_guard_acquire': return 1
     if name in ('abort', 'exit', '_exit', '__assert_fail', '_ZSt9terminatev', '__cxa_pure_virtual', '_ZSt20__throw_length_errorPKc', '_ZSt17__throw_bad_allocv', '_ZSt24__throw_out_of_range_fmtPKcz'):
         raise PathEnd('abort', name)
     # ---- heap (never stubbed away: recorded, then modelled so that exempt operations can proceed)
